@@ -47,6 +47,7 @@ def check(run):
                           "perm", {}, ins, k=10, key="poseidon/perm")
         if ctx:
             ps.chip_rows(run, base, ctx)
+            ps.chip_rows_lia(run, base, ctx)
             run.translator_validation.append(f"perm: honest chip run vs real permutation_cpu vs forms evaluated vs naive numeric textbook on seeded inputs: {ctx['tv']}")
             run.bounds.append(f"permutation: WIDTH={ctx['prm'].t} RATE={ctx['prm'].rate} R_F={ctx['prm'].rf} R_P={ctx['prm'].rp}; {len(ctx['system'].d['gates'])} extracted polynomial rows, {len(ctx['A'].tab)} atoms")
         # boundary inputs through the real chip (honest witness must verify; structure must not depend on the input)
@@ -97,6 +98,31 @@ def check(run):
             if ctx:
                 run.translator_validation.append(f"sponge {sc}: {ctx['tv']}")
 
+    # ---------------- (C') variable-length gadget: case split over len, control cells decided by the solver
+    for M in ([2, 4] if t == "quick" else [2, 4, 6]):
+        if want(f"C07/C/chip/varhash[M={M}]"):
+            ps.varhash_family(run, M, k=10, rnd=random.Random(7100 + seed + M))
+
+    # ---------------- the verifying key of every harness circuit agrees with the checker's view (as for every engine-C family)
+    from vf import cengine
+    shapes = [("perm", {}, 3)] + [("hash", {"n": n}, n) for n in lens] + [("sponge", {"script": sc}, sum(k for a, k in ps.parse_script(sc) if a)) for sc in scripts] \
+        + [("varhash", {"max": M, "len": M - 1}, M - 1) for M in ([2, 4] if t == "quick" else [2, 4, 6])]
+    for op, params, n in shapes:
+        oid = f"C07/C/chip/{op}[{ps.pstr(params)}]:keygen"
+        if not want(oid):
+            continue
+        ob = core.Ob(oid, "C", "the verifying key generated by the real keygen_vk commits to the same copy constraints and fixed columns as the development-time checker sees",
+                     functions=["midnight_proofs::plonk::keygen_vk", "permutation::keygen::Assembly::copy", "dev::MockProver::copy"], bound="k=10", key=f"poseidon/{op}:keygen-vs-checker-structure")
+        run.add(ob)
+        try:
+            insk = list(range(1, n + 1))
+            sysk = cengine.extract("poseidon", op, params, insk, 10, keygen=True)
+            cengine.keygen_structure(run, ob, sysk, "poseidon", op, params, insk, 10, timeout=60)
+        except Exception as ex:  # noqa
+            ob.set(core.INCONCLUSIVE, f"keygen structure comparison failed: {ex!r}")
+
+    run.bounds.append(f"tier={t}: fixed-length hash n=0..{lens[-1]} (0..2*RATE+1), sponge scripts {scripts}, variable-length gadget MAX_LEN in {[2, 4] if t == 'quick' else [2, 4, 6]} with every len 0..MAX_LEN, k=10; off-circuit code: same operations on symbolic inputs")
+
     # ---------------- (B) off-circuit Poseidon: the real generic code on the symbolic field
     if want("C07/C/cpu/perm"):
         ps.cpu_sym(run, "C07/C/cpu/perm", "real permutation_cpu (round-skip optimised) on symbolic inputs == textbook Poseidon permutation, as linear forms over pow5 atoms",
@@ -142,6 +168,20 @@ def replay(payload):
             print("honest_verify:", out.get("honest_verify"))
             return 1 if out.get("honest_verify") is False else 0
         print("real MockProver verdict on the forged assignment:", out)
+        if payload.get("op_spec", {}).get("op") == "varhash":
+            # the same defect through the honest API: a vector assigned with a non-zero filler
+            sp = payload["op_spec"]["params"]
+            d = ps.cx_json([a for a in payload["cx"]] + ["p.filler=7"])
+            dig = [x["value"] for x in d["io"] if x["dir"] == "out"]
+            print(f"honest API (assign_with_filler(payload, Some(7)) then varhash): MockProver ok = {d['honest_verify']}; in-circuit digest {dig}; off-circuit hash of the payload {d['extra']['cpu_out']}")
+            lo, hi = ps.payload_range(int(sp["max"]), int(sp["len"]), 2)
+            d0 = ps.cx_json(["poseidon", "op=cpu_perm", "p.concrete=1", "in=1:2:3"])
+            prm = ps.Params(d0["constants"])
+            vals = [int(x, 16) for x in payload["inputs"]]
+            exp = ps.sponge_hash_spec(ps.NumDom(prm), vals[lo:hi])
+            print("specified digest of the payload (naive textbook evaluation):", ps.hexes(exp))
+            print("digest on the accepted instance column:                     ", payload["outputs_accepted"])
+            return 1 if out.get("accepted") and ps.hexes(exp) != payload["outputs_accepted"] else 0
         if payload.get("op_spec"):
             # the accepted outputs are not the specified ones: recompute the specification numerically
             sp = payload["op_spec"]
